@@ -41,6 +41,26 @@ def query_points(rng, segs, groups, nrand):
     return sorted(pts)
 
 
+def gen_oddlen(rng, n):
+    out = []
+    for _ in range(n):
+        k = rng.randrange(1, 6)
+        a = rng.randrange(0x20, 0xF000)
+        segs = []
+        if rng.random() < 0.5:
+            b = rng.randrange(1, a - 8) if a > 16 else 1
+            segs.append(dict(start=b, end=b + rng.randrange(0, 4), delta=rng.randrange(1, 500)))
+        segs.append(dict(start=a, end=a + k - 1, delta=0, gids=[rng.randrange(1, 400) for _ in range(k)]))
+        segs.append(dict(start=0xFFFF, end=0xFFFF, delta=1))
+        sub = bytearray(G.fmt4(segs))
+        cut = rng.choice((1, 1, 1, 3))                                  # drop the last byte (or three): the length becomes odd
+        sub = sub[:len(sub) - cut]
+        sub[2:4] = struct.pack('>H', len(sub))
+        tbl = G.cmap_table([(3, 1, bytes(sub))])
+        out.append((tbl, sorted(set([a + k - 1, a + k - 2 if k > 1 else a, a, a + k, 0x41]))))
+    return out
+
+
 def gen_cases(chk):
     rng, thorough = chk.rng, chk.tier == 'thorough'
     cases, meta = [], []
@@ -115,6 +135,10 @@ def gen_cases(chk):
             rng.shuffle(segs)
             t = bytearray(G.cmap_table([(3, 1, G.fmt4(segs)), (3, 10, G.fmt12(list(reversed(groups))))]))
         add('malformed', bytes(t), query_points(rng, segs, groups, 10))
+    # a format 4 subtable of odd length that ends with the table: the last glyphIdArray entry starts at the subtable's last byte, so the
+    # lookup of its code point must be refused by the bounds test (offset * 2 + 1 >= length), not read one byte past the table
+    for tbl, pts in gen_oddlen(rng, 60 if thorough else 12):
+        add('malformed', tbl, pts)
     for n in range(0, 12):
         add('tiny', bytes([0, 0, 0, 1, 0, 3, 0, 1, 0, 0, 0, 12][:n]), [0x41, 0x10000])
     return cases, meta
